@@ -93,7 +93,12 @@ impl MultiPeerBackend for SubSocketBackend {
             .collect();
 
         for message in subs_msgs {
-            send_queue.send(Message::Message(message)).await.unwrap();
+            if let Err(e) = send_queue.send(Message::Message(message)).await {
+                // The peer went away right after the handshake: drop the
+                // connection instead of registering it.
+                log::debug!("Failed to announce subscriptions to new peer: {:?}", e);
+                return;
+            }
         }
 
         self.peers
